@@ -294,3 +294,60 @@ pub fn point(name: &'static str) {
     g.grants = 0;
     g.phase = ThreadPhase::Running;
 }
+
+// ===================================================================================
+// Ordered notes (E-LTS observations): harness callbacks and the supervision hook append
+// to one global log so that their relative order inside one poll is observable.
+// ===================================================================================
+
+/// A supervision event at the moment `notify_supervisor` hands it to the parent's port.
+#[derive(Clone, Debug, PartialEq, Eq)]
+pub struct SupNote {
+    /// the actor whose supervision port receives the event
+    pub to: crate::ActorId,
+    /// "Started" | "Terminated" | "Failed" | "Other"
+    pub kind: &'static str,
+    /// the actor the event is about
+    pub who: Option<crate::ActorId>,
+    /// `ActorTerminated` carried the final state
+    pub has_state: bool,
+    /// exit reason / failure text
+    pub text: Option<String>,
+}
+
+#[derive(Clone, Debug, PartialEq, Eq)]
+pub enum Note {
+    Text(String),
+    Sup(SupNote),
+}
+
+static NOTES: Mutex<Vec<Note>> = Mutex::new(Vec::new());
+
+/// Append a free-text note (used by harness callbacks).
+pub fn note(s: String) {
+    NOTES.lock().unwrap().push(Note::Text(s));
+}
+
+/// Take all notes recorded since the last call.
+pub fn take_notes() -> Vec<Note> {
+    std::mem::take(&mut *NOTES.lock().unwrap())
+}
+
+/// Record a supervision event that is about to be sent to `to`.
+pub fn note_sup(to: &crate::ActorCell, evt: &crate::SupervisionEvent) {
+    let (kind, has_state, text) = match evt {
+        crate::SupervisionEvent::ActorStarted(_) => ("Started", false, None),
+        crate::SupervisionEvent::ActorTerminated(_, st, reason) => {
+            ("Terminated", st.is_some(), reason.clone())
+        }
+        crate::SupervisionEvent::ActorFailed(_, err) => ("Failed", false, Some(format!("{err}"))),
+        _ => ("Other", false, None),
+    };
+    NOTES.lock().unwrap().push(Note::Sup(SupNote {
+        to: to.get_id(),
+        kind,
+        who: evt.actor_id(),
+        has_state,
+        text,
+    }));
+}
